@@ -22,11 +22,12 @@ STEPS = {
     "L": lambda p, t, u: t >> p.arrange(p.C.a.nulls_last(), p.C.b.nulls_last(), p.C.g.nulls_last()) >> p.slice_head(2),
     "O": lambda p, t, u: t >> p.arrange(p.C.b.descending().nulls_last()),
     "J": lambda p, t, u: t >> p.left_join(u, p.C.a == u.k) >> p.mutate(b=p.C.b + p.C.x.fill_null(0)) >> p.select(p.C.a, p.C.b, p.C.g),
+    "K": lambda p, t, u: t >> p.left_join(u >> p.mutate(q=1), p.C.a == u.k) >> p.mutate(b=p.C.b + p.C.q.fill_null(0)) >> p.select(p.C.a, p.C.b, p.C.g),
     "R": lambda p, t, u: t >> p.rename({"a": "b", "b": "a"}),
     "P": lambda p, t, u: t >> p.select(p.C.g, p.C.b, p.C.a),
 }
 ALIAS = lambda p, t, u: t >> p.alias("z")  # noqa: E731
-KINDS = ["F", "M", "W", "A", "S", "U", "L", "O", "J"]
+KINDS = ["F", "M", "W", "A", "S", "U", "L", "O", "J", "K"]
 NEVER_NEED = ["F", "M", "O", "R", "P"]  # + one grouped summarize + final slice_head
 
 
@@ -50,7 +51,7 @@ def sequences(cfg):
     seqs = []
     for n in (1, 2):
         for seq in itertools.product(KINDS, repeat=n):
-            if seq.count("J") > 1:
+            if seq.count("J") + seq.count("K") > 1:
                 continue
             for mask in itertools.product((False, True), repeat=n):
                 if mask[0]:
@@ -58,7 +59,7 @@ def sequences(cfg):
                 seqs.append((seq, mask))
     three = []
     for seq in itertools.product(KINDS, repeat=3):
-        if seq.count("J") > 1:
+        if seq.count("J") + seq.count("K") > 1:
             continue
         for mask in itertools.product((False, True), repeat=3):
             if mask[0]:
